@@ -3,6 +3,7 @@ package csrc
 import (
 	"encoding/binary"
 	"fmt"
+	"math/big"
 	"os"
 	"regexp"
 	"strconv"
@@ -196,4 +197,230 @@ func SolParseVM(body string, data []byte) (vm *SolVM, revert bool, err error) {
 	}
 	rv, err := exec(stmts, -1)
 	return vm, rv, err
+}
+
+// ---------------------------------------------------------------- generic straight-line payload parsers
+
+// SolParse is the outcome of interpreting one `parseXxx(bytes memory arg)` function of the Solidity sources.
+type SolParse struct {
+	Reverted bool
+	Reason   string              // the statement that reverted
+	Ints     map[string]*big.Int // every scalar assigned (struct fields without the struct prefix, locals)
+	Lists    map[string][][]byte // name[i] = arg.toAddress(index) style assignments
+}
+
+type solVal struct {
+	v    *big.Int
+	bits int // 0: untyped literal
+}
+
+var (
+	reSolRead    = regexp.MustCompile(`^(.+?)\s*=\s*([A-Za-z_]+)\.to(Bytes32|Uint8|Uint16|Uint32|Uint64|Uint256|Address)\(index\)$`)
+	reSolReadAdr = regexp.MustCompile(`^(.+?)\s*=\s*address\(uint160\(uint256\(([A-Za-z_]+)\.toBytes32\(index\)\)\)\)$`)
+	reSolRequire = regexp.MustCompile(`^require\((.*),\s*"([^"]*)"\)$`)
+	reSolForGen  = regexp.MustCompile(`^for\s*\(\s*uint i = 0; i < ([A-Za-z_]+); i\+\+\)\s*\{$`)
+	reSolDecl    = regexp.MustCompile(`^(uint\d*|bytes32|address)\s+([A-Za-z_][A-Za-z0-9_]*)$`)
+)
+
+var solWidth = map[string]int{"Bytes32": 32, "Uint8": 1, "Uint16": 2, "Uint32": 4, "Uint64": 8, "Uint256": 32, "Address": 20}
+
+// SolRunParser interprets function fn of the contract source at path on data. consts binds names the function
+// compares with (e.g. the contract's `module` constant). Arithmetic follows Solidity >= 0.8: operands of uintN types
+// are combined in the wider of the two types (an integer literal takes the other operand's type) and an overflow
+// reverts. A statement the interpreter does not understand is an error (the caller reports inconclusive).
+func SolRunParser(path, fn string, data []byte, consts map[string]*big.Int) (*SolParse, error) {
+	body, err := SolFunctionBody(path, fn)
+	if err != nil {
+		return nil, err
+	}
+	var stmts []string
+	for _, l := range strings.Split(body, "\n") {
+		l = strings.TrimSpace(strings.TrimSuffix(strings.TrimSpace(l), ";"))
+		if l != "" {
+			stmts = append(stmts, l)
+		}
+	}
+	res := &SolParse{Ints: map[string]*big.Int{}, Lists: map[string][][]byte{}}
+	vars := map[string]solVal{}
+	for k, v := range consts {
+		vars[k] = solVal{v, 256}
+	}
+	index := -1
+	arg := ""
+	short := func(lhs string) (name string, bits int) {
+		lhs = strings.TrimSpace(lhs)
+		if m := reSolDecl.FindStringSubmatch(lhs); m != nil {
+			b := 256
+			if strings.HasPrefix(m[1], "uint") && len(m[1]) > 4 {
+				b, _ = strconv.Atoi(m[1][4:])
+			}
+			return m[2], b
+		}
+		if i := strings.LastIndex(lhs, "."); i >= 0 {
+			lhs = lhs[i+1:]
+		}
+		return lhs, 0
+	}
+	var eval func(e string) (solVal, bool, error) // value, overflowed, error
+	eval = func(e string) (solVal, bool, error) {
+		e = strings.TrimSpace(e)
+		// lowest precedence first: +, then *
+		for _, op := range []string{"+", "*"} {
+			depth := 0
+			for i := len(e) - 1; i >= 0; i-- {
+				switch e[i] {
+				case ')':
+					depth++
+				case '(':
+					depth--
+				}
+				if depth == 0 && string(e[i]) == op {
+					a, oa, err := eval(e[:i])
+					if err != nil || oa {
+						return a, oa, err
+					}
+					b, ob, err := eval(e[i+1:])
+					if err != nil || ob {
+						return b, ob, err
+					}
+					bits := a.bits
+					if b.bits > bits {
+						bits = b.bits
+					}
+					out := new(big.Int)
+					if op == "+" {
+						out.Add(a.v, b.v)
+					} else {
+						out.Mul(a.v, b.v)
+					}
+					if bits == 0 {
+						return solVal{out, 0}, false, nil
+					}
+					if out.BitLen() > bits {
+						return solVal{out, bits}, true, nil
+					}
+					return solVal{out, bits}, false, nil
+				}
+			}
+		}
+		if strings.HasPrefix(e, "(") && strings.HasSuffix(e, ")") {
+			return eval(e[1 : len(e)-1])
+		}
+		if n, ok := new(big.Int).SetString(e, 0); ok {
+			return solVal{n, 0}, false, nil
+		}
+		if e == "index" {
+			return solVal{big.NewInt(int64(index)), 256}, false, nil
+		}
+		if arg != "" && e == arg+".length" {
+			return solVal{big.NewInt(int64(len(data))), 256}, false, nil
+		}
+		name, _ := short(e)
+		if v, ok := vars[name]; ok {
+			return v, false, nil
+		}
+		return solVal{}, false, fmt.Errorf("operand %q not understood", e)
+	}
+	var exec func(list []string, it int) error
+	exec = func(list []string, it int) error {
+		for i := 0; i < len(list) && !res.Reverted; i++ {
+			st := list[i]
+			switch {
+			case st == "uint index = 0" || st == "uint256 index = 0":
+				index = 0
+			case reSolIndex.MatchString(st):
+				k, _ := strconv.Atoi(reSolIndex.FindStringSubmatch(st)[1])
+				index += k
+			case reSolRead.MatchString(st) || reSolReadAdr.MatchString(st):
+				var lhs, a, kind string
+				asAddress := false
+				if m := reSolReadAdr.FindStringSubmatch(st); m != nil {
+					lhs, a, kind, asAddress = m[1], m[2], "Bytes32", true
+				} else {
+					m := reSolRead.FindStringSubmatch(st)
+					lhs, a, kind = m[1], m[2], m[3]
+				}
+				arg = a
+				n := solWidth[kind]
+				if index < 0 || index+n > len(data) {
+					res.Reverted, res.Reason = true, st+" (read past the end of the payload)"
+					return nil
+				}
+				b := append([]byte{}, data[index:index+n]...)
+				if asAddress {
+					b = b[12:]
+				}
+				if strings.HasSuffix(strings.TrimSpace(lhs), "[i]") {
+					name, _ := short(strings.TrimSuffix(strings.TrimSpace(lhs), "[i]"))
+					res.Lists[name] = append(res.Lists[name], b)
+					continue
+				}
+				name, bits := short(lhs)
+				if bits == 0 {
+					bits = 8 * len(b)
+				}
+				v := new(big.Int).SetBytes(b)
+				vars[name] = solVal{v, bits}
+				res.Ints[name] = v
+			case reSolRequire.MatchString(st):
+				cond := reSolRequire.FindStringSubmatch(st)[1]
+				parts := strings.SplitN(cond, "==", 2)
+				if len(parts) != 2 {
+					return fmt.Errorf("require condition not understood: %q", st)
+				}
+				a, oa, err := eval(parts[0])
+				if err != nil {
+					return fmt.Errorf("%v in %q", err, st)
+				}
+				b, ob, err := eval(parts[1])
+				if err != nil {
+					return fmt.Errorf("%v in %q", err, st)
+				}
+				if oa || ob {
+					res.Reverted, res.Reason = true, st+" (checked arithmetic overflows: Panic(0x11))"
+					return nil
+				}
+				if a.v.Cmp(b.v) != 0 {
+					res.Reverted, res.Reason = true, st
+					return nil
+				}
+			case strings.HasSuffix(st, "({"): // struct literal spanning several lines: only allocations matter here
+				for i++; i < len(list) && list[i] != "})"; i++ {
+				}
+			case reSolForGen.MatchString(st):
+				bound, ok := vars[reSolForGen.FindStringSubmatch(st)[1]]
+				if !ok {
+					return fmt.Errorf("loop bound not understood: %q", st)
+				}
+				j, d := i+1, 1
+				for ; j < len(list); j++ {
+					if strings.HasSuffix(list[j], "{") {
+						d++
+					}
+					if list[j] == "}" {
+						d--
+						if d == 0 {
+							break
+						}
+					}
+				}
+				if j >= len(list) {
+					return fmt.Errorf("unterminated for loop")
+				}
+				for k := int64(0); k < bound.v.Int64() && !res.Reverted; k++ {
+					if err := exec(list[i+1:j], int(k)); err != nil {
+						return err
+					}
+				}
+				i = j
+			default:
+				return fmt.Errorf("statement not understood: %q", st)
+			}
+		}
+		return nil
+	}
+	if err := exec(stmts, -1); err != nil {
+		return nil, fmt.Errorf("%s: %v", fn, err)
+	}
+	return res, nil
 }
